@@ -214,6 +214,7 @@ package netceptor
 //@ monitor (s *Netceptor) knownNodeLock
 //@   protects knownNodeInfo, knownConnectionCosts
 //@   inv KCC: s.knownConnectionCosts != nil && s.knownNodeInfo != nil && forall k string :: (k in s.knownConnectionCosts) ==> s.knownConnectionCosts[k] != nil
+//@   inv KNI: forall k string :: (k in s.knownNodeInfo) ==> s.knownNodeInfo[k] != nil
 
 //@ func (*Netceptor).removeConnection
 //@   tags C07 C11
@@ -226,7 +227,19 @@ package netceptor
 
 //@ func (*Netceptor).handleRoutingUpdate
 //@   tags C06 C07
+//@   safetytags C07
+//@   safety
 //@   requires s != nil && ri != nil
+//@   site call flood NOTBACK: [C06] requires arg1 == lastcall("translateStructToNetwork") && arg2 == recvConn && ri.ForwardingNode == s.nodeID
+//@   site call flood NOTSELF: [C06] requires ri.NodeID != s.nodeID && ri.NodeID != ""
+//@   site call flood ONCE: [C06] requires !acqof("seenUpdatesLock", ri.UpdateID in s.seenUpdates)
+//@   site call flood FRESH: [C06] requires !acqof("knownNodeLock", ri.NodeID in s.knownNodeInfo)
+//@        || newer(ri.UpdateEpoch, ri.UpdateSequence, acqof("knownNodeLock", s.knownNodeInfo[ri.NodeID].Epoch), acqof("knownNodeLock", s.knownNodeInfo[ri.NodeID].Sequence))
+//@   site mapupdate Netceptor.seenUpdates REMEMBER: [C06] requires key == ri.UpdateID && !acqof("seenUpdatesLock", key in s.seenUpdates)
+//@   site mapupdate Netceptor.knownNodeInfo ACCEPT: [C06] requires key == ri.NodeID && value != nil && value.Epoch == ri.UpdateEpoch && value.Sequence == ri.UpdateSequence && ri.NodeID != s.nodeID
+//@        && (!acqof("knownNodeLock", ri.NodeID in s.knownNodeInfo) || newer(ri.UpdateEpoch, ri.UpdateSequence, acqof("knownNodeLock", s.knownNodeInfo[ri.NodeID].Epoch), acqof("knownNodeLock", s.knownNodeInfo[ri.NodeID].Sequence)))
+//@   site call sendRoutingUpdate SUSPECT: [C06] requires ri.NodeID == s.nodeID && ri.UpdateEpoch > s.epoch && arg1 == ri.UpdateEpoch
+//@   site call Shutdown DUPLICATE: [C06 C11] requires ri.NodeID == s.nodeID && ri.SuspectedDuplicate == s.epoch && ri.UpdateEpoch != s.epoch
 
 //@ func (*Netceptor).handleServiceAdvertisement
 //@   tags C07 C18
@@ -253,3 +266,28 @@ package netceptor
 //@   site mapupdate Netceptor.connections ADMITCOST: [C11] requires ci.Cost == ((key in bi.nodeCost) ? bi.nodeCost[key] : bi.connectionCost)
 //@   site call removeConnection WHO: [C11] requires arg1 == remoteNodeID
 //@   ensures FORGOTTEN: [C11] !flag("inserted")
+
+// ---- C06: routing updates are applied and relayed at most once, never regress
+
+//@ spec newer(e1 uint64, s1 uint64, e2 uint64, s2 uint64) bool := e1 > e2 || (e1 == e2 && s1 > s2)
+
+//@ monitor (s *Netceptor) seenUpdatesLock
+//@   protects seenUpdates
+//@   inv SEEN: s.seenUpdates != nil
+
+//@ func (*Netceptor).flood
+//@   tags C06 C07
+//@   requires s != nil
+
+//@ func (*Netceptor).sendRoutingUpdate
+//@   tags C06 C07
+//@   requires s != nil
+
+//@ func (*Netceptor).translateStructToNetwork
+//@   tags C07
+//@   requires s != nil
+//@   modifies nothing
+
+//@ func (*Netceptor).Shutdown
+//@   tags C17
+//@   requires s != nil
